@@ -77,13 +77,21 @@ func (it *Interp) freshValue(t types.Type, path string, mk leafMaker, o freshOpt
 			return &StrV{T: mk(path, SStr, "bytes")}
 		}
 		ln := mk(path+".len", bvSort(64), "len")
+		maxLen := o.maxLen
+		decodeMaxMu.RLock()
+		for suffix, m := range it.ex.cfg.DecodeMaxAt {
+			if strings.HasSuffix(path, suffix) {
+				maxLen = m // a per-field bound set by the harness (rt.Opt("decode-max-at:<field path suffix>=<n>"))
+			}
+		}
+		decodeMaxMu.RUnlock()
 		n := 0
-		for ; n < o.maxLen; n++ {
+		for ; n < maxLen; n++ {
 			if it.p.branch(Eq(ln, BVu(64, uint64(n)))) {
 				break
 			}
 		}
-		if n == o.maxLen {
+		if n == maxLen {
 			it.p.assume(Eq(ln, BVu(64, uint64(n))))
 		}
 		if n == 0 {
